@@ -1,6 +1,7 @@
 """C04 - exceptions raised by tests and layers are contained."""
 import os
 import random
+import re
 
 LEVEL = 'fault_enumeration'
 RULE = ('fault enumeration: (exception class x phase x position x options). '
@@ -18,14 +19,20 @@ RULE = ('fault enumeration: (exception class x phase x position x options). '
 ASSUMPTIONS = ['unittest itself turns SystemExit in a test into an error',
                'world hooks report facts truthfully']
 FLOORS = {'faults_fired': 100, 'tests_after_fault': 100, 'multi_event': 10,
-          'buffer_cases': 30, 'child_cases': 5}
+          'buffer_cases': 30, 'child_cases': 5, 'cli_cases': 30,
+          'color_or_progress': 60}
 BATCH_TIMEOUT = 300
 
 EXCS = ['ValueError', 'KeyError', 'NeedsArgs', 'CustomDerived', 'Chained',
         'Context', 'Group', 'UnicodeEncodeError', 'OSError', 'AssertionError',
         'StopIteration', 'RecursionError', 'LookupError']
 MSGS = [None, 'café ☃', 'line1\nline2\n  indented', 'x' * 300,
-        '%s %d {}', '']
+        '%s %d {}', '',
+        # what os.fsdecode() makes of an undecodable file name, control and
+        # escape characters, NUL, astral planes
+        'no such file: /tmp/\udcff\udcfe.txt', 'lone \ud800 surrogate',
+        'ctl \x1b[31m\x08\x07 \r back', 'nul \x00 byte',
+        '\U0001f600 \U00010000', '\x85\u2028 line separators']
 FAULT_KINDS = ['fail', 'error', 'setup_error', 'teardown_error',
                'cleanup_error', 'body_teardown_error', 'body_cleanup_error',
                'fail_teardown_error', 'subtests', 'uxsuccess', 'sysexit',
@@ -100,8 +107,19 @@ def make_case(rng, idx, tier):
         opts['repeat'] = 2
     if rng.random() < 0.06:
         opts['processes'] = 2
+    # the other formatters (colourised, progress) print failures their own way
+    r = rng.random()
+    if r < 0.12:
+        opts['color'] = True
+    elif r < 0.2:
+        opts['progress'] = True
+    elif r < 0.25:
+        opts['color'] = opts['progress'] = True
     spec = gen.simple_world(prefix, layers, tbl)
-    return {'spec': spec, 'plan': plan, 'opts': opts}
+    # a real process: stdout / stderr are pipes with the interpreter's own
+    # encoding and error handler (the in-process recorder accepts any str)
+    mode = 'cli' if rng.random() < 0.15 else 'in'
+    return {'spec': spec, 'plan': plan, 'opts': opts, 'mode': mode}
 
 
 def cases(tier, seed):
@@ -110,8 +128,14 @@ def cases(tier, seed):
     return [make_case(rng, i, tier) for i in range(n)]
 
 
+RUNNER_TB = re.compile(r'Traceback \(most recent call last\):\n(?:.*\n)*?'
+                       r'  File "[^"]*zope/testrunner/[^"]*"')
+
+
 def classify_raise(tb, case):
     tb = tb or ''
+    if 'UnicodeEncodeError' in tb and 'formatter.py' in tb:
+        return 'unencodable-text-aborts-run'
     if 'getvalue' in tb and '_restoreStdStreams' in tb:
         return 'buffer-second-event-getvalue'
     if 'tests_with_failures' in tb and 'cannot unpack' in tb:
@@ -131,7 +155,7 @@ def run_case(case):
     import gc
     g0 = len(gc.garbage)
     try:
-        w = common.run_world(spec, plan, opts)
+        w = common.run_world(spec, plan, opts, mode=case.get('mode', 'in'))
     finally:
         del gc.garbage[g0:]
     viol = []
@@ -160,6 +184,15 @@ def run_case(case):
     child_pids = {e['pid'] for e in events
                   if e['k'].startswith('test.') and e['pid'] != parent}
     counters['child_cases'] = 1 if child_pids else 0
+    counters['cli_cases'] = 1 if case.get('mode') == 'cli' else 0
+    counters['color_or_progress'] = 1 if (opts.get('color') or
+                                          opts.get('progress')) else 0
+    if case.get('mode') == 'cli' and w.raised is None and \
+            getattr(w, 'err', '') and RUNNER_TB.search(w.err):
+        # an uncaught exception ends the process with status 1, like a
+        # failed run: the traceback of the runner itself on stderr tells
+        w.raised = 'runner traceback on stderr'
+        w.raised_tb = w.err[-1500:]
     if w.raised is not None:
         viol.append({'rule': 'run-aborted', 'mech': classify_raise(
             w.raised_tb, case),
